@@ -446,9 +446,27 @@ pub fn run(tier: Tier) -> i32 {
         }
         st = st.merge(s2);
     }
+    // documents whose containers have a medium size (around 16, 32, 64 elements / members): leaves and unary
+    // productions on either side (a shortcut that engages at a capacity boundary differs from the staged result)
+    {
+        let msizes: Vec<usize> = tier.pick(vec![16, 17, 33], vec![15, 16, 17, 31, 32, 33, 63, 64, 65, 129]);
+        let md = crate::enumr::medium_docs(&msizes);
+        let n_unary = e0v.len() + crate::checks::c01::UNARY.len() * e0v.len();
+        let sm = par_sweep((0..n_unary).collect::<Vec<usize>>(), |&i, st| {
+            let x = &e1v[i];
+            for y in &e0v {
+                check_pair(x, y, &md, st);
+                if i >= e0v.len() {
+                    check_pair(y, x, &md, st);
+                }
+            }
+        });
+        st.count("medium_size_document_pairs", sm.states);
+        st = st.merge(sm);
+    }
     rep.guard("non-null compound results occur", st.nontrivial > 1000);
     rep.rule = "all pairs (L, R) from E1 x E0, E0 x E1 and six diagonals of E1 x E1 (thorough: all of E1 x E1) x 11 laws x the document pool: the compound expression (text, and where expressible the tree built through Expression::new) against the combination of the parts' individual search results, computed with separate search calls of the implementation. states = pairs; transitions = (pair, law, document); non-trivial = non-null compound result Plus 11 parts that create values inside the expression (integers beyond i64, i64::MIN, 1e308, 5e-324, -0.0, 1 vs 1.0, non-ASCII strings) x 26 other parts, both orders.".into();
-    rep.bounds = json!({"E1": e1v.len(), "E0": e0v.len(), "laws": LAWS, "documents": dv.len(), "full_product": if step == 1 { "E1 x E1 on the first 8 documents; E1 x E0, E0 x E1 and six diagonals on all documents" } else { "no" }});
+    rep.bounds = json!({"medium_document_sizes": tier.pick(vec![16, 17, 33], vec![15, 16, 17, 31, 32, 33, 63, 64, 65, 129]), "medium_document_pairs": "(E0 + unary E1) x E0, both orders", "E1": e1v.len(), "E0": e0v.len(), "laws": LAWS, "documents": dv.len(), "full_product": if step == 1 { "E1 x E1 on the first 8 documents; E1 x E0, E0 x E1 and six diagonals on all documents" } else { "no" }});
     rep.assumptions = vec!["truthiness table of the specification is applied by the harness to the parts' results".into()];
     rep.stats = st;
     rep.finish()
